@@ -3,9 +3,9 @@ Run after confirming the checks on a tree: the table is the naming the rule modu
 import ast, json, os, sys
 VERIF = os.path.dirname(os.path.dirname(os.path.abspath(__file__)))
 sys.path.insert(0, VERIF)
-from sa import alpha
+from sa import alpha, names
 root = sys.argv[1] if len(sys.argv) > 1 else "/repo/discopy"
-table, cmps, loops = {}, {}, {}
+table, cmps, loops, exits = {}, {}, {}, {}
 for dp, dn, fns in os.walk(root):
     dn[:] = [d for d in dn if d != "__pycache__"]
     for f in sorted(fns):
@@ -20,10 +20,12 @@ for dp, dn, fns in os.walk(root):
             c = alpha.compare_table_of(ast.parse(open(p).read()))
             if c:
                 cmps[name] = c
+            exits[name] = names.exits_table_of(name, ast.parse(open(p).read()))
             lp = alpha.loop_table_of(ast.parse(open(p).read()))
             if lp:
                 loops[name] = lp
 json.dump(table, open(alpha.TABLE, "w"), indent=0, sort_keys=True)
 json.dump(cmps, open(alpha.CMP_TABLE, "w"), indent=0, sort_keys=True)
 json.dump(loops, open(alpha.LOOP_TABLE, "w"), indent=0, sort_keys=True)
+json.dump(exits, open(names.EXITS_TABLE, "w"), indent=0, sort_keys=True)
 print("%d modules, %d functions with locals" % (len(table), sum(len(v) for v in table.values())))
